@@ -1232,3 +1232,294 @@ Proof.
     - apply IH; [lia|exact B|lia]. }
   apply G; [exact Hl|exact Hb|lia].
 Qed.
+
+(* ---------- the FDR threshold when no p-value passes (the code's regime for every step of height <= 1) ---------- *)
+
+Lemma insert_desc_hd x l :
+  hd 0 (insert_desc x l) = match l with [] => x | y :: _ => if Qle_bool y x then x else y end.
+Proof. destruct l as [|y r]; cbn [insert_desc hd]; [reflexivity|]. destruct (Qle_bool y x); reflexivity. Qed.
+
+Lemma insert_desc_nonempty x l : insert_desc x l <> [].
+Proof. destruct l as [|y r]; cbn [insert_desc]; [discriminate|]. destruct (Qle_bool y x); discriminate. Qed.
+
+(* the head of the descending sort is a maximal member *)
+Lemma sort_desc_hd l : l <> [] ->
+  (forall y, In y l -> y <= hd 0 (sort_desc l)) /\ In (hd 0 (sort_desc l)) l.
+Proof.
+  induction l as [|a t IH]; intros Hne; [congruence|].
+  change (sort_desc (a :: t)) with (insert_desc a (sort_desc t)). rewrite insert_desc_hd.
+  destruct t as [|b t'].
+  - cbn [sort_desc fold_right]. split; [intros y [<-|[]]; apply Qle_refl|left; reflexivity].
+  - destruct (IH ltac:(discriminate)) as [I1 I2].
+    destruct (sort_desc (b :: t')) as [|y r] eqn:Es.
+    { exfalso. change (sort_desc (b :: t')) with (insert_desc b (sort_desc t')) in Es.
+      exact (insert_desc_nonempty _ _ Es). }
+    cbn [hd] in I1, I2. destruct (Qle_bool y a) eqn:E.
+    + apply Qle_bool_iff in E. split; [|left; reflexivity].
+      intros z [<-|Hz]; [apply Qle_refl|]. specialize (I1 z Hz). lra.
+    + split; [|right; exact I2].
+      assert (a <= y).
+      { destruct (Qlt_le_dec y a) as [L|L]; [|exact L]. exfalso.
+        assert (Qle_bool y a = true) by (apply Qle_bool_iff; lra). congruence. }
+      intros z [<-|Hz]; [assumption|apply I1, Hz].
+Qed.
+
+Lemma fdr_eps_pos : 0 < Gen.HaarDefaults.haar_fdr_eps.
+Proof. reflexivity. Qed.
+
+Lemma fdr_fallback_thres x q pv ab :
+  (2 <= length x)%nat ->
+  fdr_scan (sort_desc (map Qabs x)) pv 0 (Zlength_nat x) q None = None ->
+  let mx := hd 0 (sort_desc (map Qabs x)) in
+  (forall v, In v x -> Qabs v <= mx) /\ In mx (map Qabs x) /\
+  fdr_thres x q pv ab = (if ab then mx else Qred (mx + Gen.HaarDefaults.haar_fdr_eps)).
+Proof.
+  intros Hl Hs mx.
+  assert (Hne : map Qabs x <> []) by (destruct x; [cbn in Hl; lia|discriminate]).
+  destruct (sort_desc_hd (map Qabs x) Hne) as [S1 S2].
+  split; [intros v Hv; apply S1, in_map, Hv|]. split; [exact S2|].
+  unfold fdr_thres. unfold Zlength_nat in *.
+  destruct (Z.of_nat (length x) <? 2)%Z eqn:E; [lia|]. rewrite Hs. reflexivity.
+Qed.
+
+Section NoiseFallback.
+Variable scale_u scale_w : Z -> Q.
+Variable pvals : Z -> list Q.
+Variable absorb : Z -> bool.
+
+(* "No passing p-values" at a level: FDRThres takes its fallback branch *)
+Definition level_no_pass (sg : list Q) (wt : option (list Q)) (q : Q) (level : Z) : Prop :=
+  let conv := conv_level scale_u scale_w sg wt (2 ^ level) in
+  let vals := map (qnth conv) (find_local_peaks conv) in
+  fdr_scan (sort_desc (map Qabs vals)) (pvals level) 0 (Zlength_nat vals) q None = None.
+
+(* ANY signal: a level with two or more peaks, no passing p-value and an unabsorbed 1e-16 keeps nothing *)
+Lemma fallback_addon_none sg wt q level :
+  (2 <= length (level_peaks scale_u scale_w sg wt level))%nat ->
+  level_no_pass sg wt q level -> absorb level = false ->
+  level_addon scale_u scale_w pvals absorb sg wt q level = [].
+Proof.
+  intros Hm Hnp Hab. rewrite level_addon_keep. apply keep_ge_none. intros x Hx.
+  unfold level_thres. cbv zeta. unfold level_no_pass in Hnp. cbv zeta in Hnp. unfold level_peaks in Hm.
+  set (conv := conv_level scale_u scale_w sg wt (2 ^ level)) in *.
+  destruct (fdr_fallback_thres (map (qnth conv) (find_local_peaks conv)) q (pvals level) (absorb level))
+    as [F1 [_ F3]]; [rewrite map_length; exact Hm|exact Hnp|].
+  rewrite F3, Hab, Qred_correct.
+  specialize (F1 (qnth conv x) (in_map _ _ _ Hx)). pose proof fdr_eps_pos. lra.
+Qed.
+
+(* no breakpoints at all, for ANY signal, when every level is of that kind or has no peak *)
+Lemma fallback_no_breaks sg wt q :
+  (forall l, (1 <= l <= 5)%Z -> level_peaks scale_u scale_w sg wt l <> [] ->
+     (2 <= length (level_peaks scale_u scale_w sg wt l))%nat /\ level_no_pass sg wt q l /\ absorb l = false) ->
+  haar_breakpoints_over scale_u scale_w pvals absorb haar_levels sg wt q = [].
+Proof.
+  intros H. unfold haar_breakpoints_over.
+  assert (A : forall l, In l haar_levels -> level_addon scale_u scale_w pvals absorb sg wt q l = []).
+  { intros l Hl. apply haar_levels_range in Hl.
+    destruct (level_peaks scale_u scale_w sg wt l) as [|x0 r0] eqn:Ep.
+    - unfold level_addon. unfold level_peaks in Ep. rewrite Ep. reflexivity.
+    - destruct (H l Hl) as [H1 [H2 H3]]; [rewrite Ep; discriminate|].
+      apply fallback_addon_none; [rewrite Ep in H1; rewrite Ep; exact H1|exact H2|exact H3]. }
+  destruct (fold_single_or_none 0%Z (fun l => level_addon scale_u scale_w pvals absorb sg wt q l)
+              (fun l => (2 ^ (l - 1))%Z) ltac:(lia) haar_levels []) as [_ F2].
+  - intros l Hl. split; [apply haar_levels_range in Hl; apply Z.pow_nonneg; lia|right; apply A, Hl].
+  - right. reflexivity.
+  - apply F2; [reflexivity|exact A].
+Qed.
+
+Hypothesis scale_u_pos : forall h, 0 < scale_u h.
+
+(* the noisy step at one level in the fallback regime: [t] when the 1e-16 is absorbed (or t is the only
+   peak), nothing otherwise -- no assumption on the size of the threshold *)
+Lemma noisy_step_addon_fallback a b t n sg eps q level :
+  noise_within eps (step_signal a b t n) sg -> (32 <= t)%nat -> (t + 32 <= n)%nat ->
+  4 * eps < Qabs (b - a) -> (1 <= level <= 5)%Z ->
+  ((2 <= length (level_peaks scale_u scale_w sg None level))%nat -> level_no_pass sg None q level) ->
+  level_addon scale_u scale_w pvals absorb sg None q level =
+  (if (length (level_peaks scale_u scale_w sg None level) <? 2)%nat || absorb level then [Z.of_nat t] else []).
+Proof.
+  intros Hnz Ht Hn Hgap Hl Hnp. pose proof (pow2_le32 level Hl) as P2.
+  destruct (noisy_step_level a b t n sg eps (2 ^ level) (scale_u (2 ^ level)) Hnz (scale_u_pos _)
+              ltac:(lia) ltac:(lia) ltac:(lia) Hgap) as [G1 [G2 [_ [_ [M [Kin [Kout [K1 _]]]]]]]].
+  destruct (Nat.ltb_spec (length (level_peaks scale_u scale_w sg None level)) 2) as [Lt|Ge]; cbn [orb].
+  - (* t is the only peak: threshold 0 *)
+    apply (noisy_step_addon scale_u scale_w pvals absorb scale_u_pos a b t n sg eps q level); try assumption.
+    + intros C. lia.
+    + assert (E : level_thres scale_u scale_w pvals absorb sg None q level = 0).
+      { unfold level_thres. cbv zeta. unfold level_peaks in Lt.
+        destruct (find_local_peaks (conv_level scale_u scale_w sg None (2 ^ level))) as [|x [|y r]];
+          [reflexivity|reflexivity|cbn [length] in Lt; lia]. }
+      rewrite E. apply Qabs_nonneg.
+  - specialize (Hnp Ge). unfold level_no_pass in Hnp. cbv zeta in Hnp. unfold level_peaks in Ge.
+    unfold conv_level in *. cbv zeta in G2, M, Kin, Kout, K1.
+    set (conv := haar_conv sg None (2 ^ level) (scale_u (2 ^ level))) in *.
+    destruct (fdr_fallback_thres (map (qnth conv) (find_local_peaks conv)) q (pvals level) (absorb level))
+      as [F1 [F2 F3]]; [rewrite map_length; exact Ge|exact Hnp|].
+    (* the largest |peak value| is the one at t *)
+    assert (Hmx : hd 0 (sort_desc (map Qabs (map (qnth conv) (find_local_peaks conv)))) == Qabs (qnth conv (Z.of_nat t))).
+    { apply in_map_iff in F2. destruct F2 as [v [Ev Hv]]. apply in_map_iff in Hv. destruct Hv as [x0 [Ex Hx0]].
+      pose proof (F1 (qnth conv (Z.of_nat t)) (in_map _ _ _ Kin)) as Le.
+      destruct (Z.eq_dec x0 (Z.of_nat t)) as [->|Hne]; [rewrite <- Ev, <- Ex; reflexivity|exfalso].
+      destruct (peaks_sorted conv) as [_ R]. specialize (R x0 Hx0).
+      assert (Hlenc : length conv = n).
+      { unfold conv. rewrite haar_conv_length. destruct Hnz as [Hl' _]. rewrite Hl'. apply step_signal_length. lia. }
+      rewrite Hlenc in R. specialize (M x0 ltac:(lia) Hne). rewrite <- Ev, <- Ex in Le. lra. }
+    rewrite level_addon_keep. unfold level_thres, conv_level. cbv zeta. fold conv. rewrite F3.
+    destruct (absorb level).
+    + apply K1.
+      * rewrite Hmx. eapply Qlt_le_trans; [exact G1|exact G2].
+      * rewrite Hmx. apply Qle_refl.
+    + apply keep_ge_none. intros x Hx. rewrite Qred_correct.
+      pose proof (F1 (qnth conv x) (in_map _ _ _ Hx)). pose proof fdr_eps_pos. lra.
+Qed.
+
+End NoiseFallback.
+
+(* ---------- the result tables, given the breakpoints ---------- *)
+
+Lemma noisy_step_result a b t n sg eps :
+  noise_within eps (step_signal a b t n) sg -> (1 <= t)%nat -> (t + 1 <= n)%nat ->
+  let r := haar_result_of sg None [Z.of_nat t] in
+  let T := Z.of_nat t in
+  let N := Z.of_nat n in
+  hr_breaks r = [T] /\ hr_start r = [0; T]%Z /\ hr_end r = [T - 1; N - 1]%Z /\ hr_size r = [T; N - T]%Z /\
+  exists m1 m2, hr_mean r = [m1; m2] /\ Qabs (m1 - a) <= eps /\ Qabs (m2 - b) <= eps.
+Proof.
+  intros Hnz Ht Hn r T N.
+  assert (Hstp : length (step_signal a b t n) = n) by (apply step_signal_length; lia).
+  assert (Hlen : length sg = n) by (destruct Hnz as [Hl _]; rewrite Hl; exact Hstp).
+  unfold r, haar_result_of.
+  cbn [hr_breaks hr_start hr_end hr_size hr_mean app map combine fst snd].
+  unfold Zlength_nat. rewrite Hlen. fold N. fold T. rewrite Z.sub_0_r.
+  repeat (split; [reflexivity|]).
+  eexists. eexists. split; [reflexivity|].
+  assert (Hne : sg <> []) by (intros C; rewrite C in Hlen; cbn in Hlen; lia).
+  assert (Hbi : breaks_in (Zlength_nat sg) [T]).
+  { unfold Zlength_nat. rewrite Hlen. split; [repeat constructor|]. intros x [<-|[]]. unfold T. lia. }
+  assert (Hat : forall j, (0 <= j < N)%Z ->
+            Qabs (at_ sg j - (if (Z.to_nat j <? t)%nat then a else b)) <= eps).
+  { intros j Hj. destruct Hnz as [_ Hbd]. specialize (Hbd j). rewrite Hstp in Hbd. specialize (Hbd Hj).
+    unfold at_ in Hbd at 2. rewrite nth_step in Hbd by (unfold N in Hj; lia). exact Hbd. }
+  split.
+  - rewrite (segment_by_peaks_nth sg [T] None 0 T 0 Hne Hbi); [|left; reflexivity|unfold T; lia].
+    pose proof (seg_mean_spec sg None 0 T ltac:(unfold T; lia) ltac:(rewrite Hlen; unfold T; lia) I) as Sm.
+    cbn [is_segment_mean] in Sm. rewrite Sm.
+    apply range_mean_within; [unfold T; lia|]. intros j Hj.
+    pose proof (Hat j ltac:(unfold T, N in *; lia)) as A.
+    replace (Z.to_nat j <? t)%nat with true in A by (symmetry; apply Nat.ltb_lt; unfold T in Hj; lia).
+    exact A.
+  - rewrite (segment_by_peaks_nth sg [T] None T N T Hne Hbi);
+      [|unfold Zlength_nat; rewrite Hlen; right; left; reflexivity|unfold T, N; lia].
+    pose proof (seg_mean_spec sg None T N ltac:(unfold T, N; lia) ltac:(rewrite Hlen; unfold N; lia) I) as Sm.
+    cbn [is_segment_mean] in Sm. rewrite Sm.
+    apply range_mean_within; [unfold T, N; lia|]. intros j Hj.
+    pose proof (Hat j ltac:(unfold T, N in *; lia)) as A.
+    replace (Z.to_nat j <? t)%nat with false in A by (symmetry; apply Nat.ltb_ge; unfold T in Hj; lia).
+    exact A.
+Qed.
+
+Lemma noisy_flat_result eps c sg wt :
+  flat_within eps c sg -> weights_ok sg wt -> sg <> [] ->
+  let n := Zlength_nat sg in
+  let r := haar_result_of sg wt [] in
+  hr_breaks r = [] /\ hr_start r = [0%Z] /\ hr_end r = [(n - 1)%Z] /\ hr_size r = [n] /\
+  exists m, hr_mean r = [m] /\ Qabs (m - c) <= eps.
+Proof.
+  intros Hf Hw Hne n r.
+  assert (Hn : (0 < n)%Z) by (apply Zlength_pos, Hne).
+  unfold r, haar_result_of.
+  cbn [hr_breaks hr_start hr_end hr_size hr_mean app map combine fst snd]. fold n. rewrite Z.sub_0_r.
+  repeat (split; [reflexivity|]).
+  eexists. split; [reflexivity|].
+  assert (Hbi : breaks_in (Zlength_nat sg) []) by (split; [constructor|intros x []]).
+  rewrite (segment_by_peaks_nth sg [] wt 0 n 0 Hne Hbi); [|left; reflexivity|lia].
+  assert (Hwl : wt_len_ok sg wt) by (destruct wt as [w|]; [destruct Hw as [Hlw _]; exact Hlw|exact I]).
+  pose proof (seg_mean_spec sg wt 0 n ltac:(lia) ltac:(unfold n, Zlength_nat; lia) Hwl) as Sm.
+  destruct wt as [w|]; cbn [is_segment_mean] in Sm.
+  - destruct Hw as [Hlw Hp].
+    assert (Hwp : forall j, (0 <= j < n)%Z -> 0 < at_ w j).
+    { intros j Hj. unfold at_. apply (nth_Forall (fun x => 0 < x) w _ Hp). rewrite Hlw. unfold n, Zlength_nat in Hj. lia. }
+    assert (Rw : 0 < range_weight w 0 n).
+    { unfold range_weight. apply wsum_pos; [lia|]. intros j Hj. apply Hwp. lia. }
+    destruct Sm as [Sm _]. rewrite (Sm Rw).
+    apply range_wmean_within; [lia|]. intros j Hj. split; [apply Hwp, Hj|].
+    apply Hf. unfold n, Zlength_nat in Hj. lia.
+  - rewrite Sm. apply range_mean_within; [lia|]. intros j Hj. apply Hf. unfold n, Zlength_nat in Hj. lia.
+Qed.
+
+Section NoiseFallbackSeg.
+Variable scale_u scale_w : Z -> Q.
+Variable pvals : Z -> list Q.
+Variable absorb : Z -> bool.
+
+(* haarSeg on ANY signal: if at every level that has a peak there are at least two, no p-value passes and the 1e-16 is
+   not absorbed, nothing is reported; for a flat profile with noise within eps the one segment's mean is within eps *)
+Lemma noisy_flat_seg_fallback eps c sg wt q :
+  flat_within eps c sg -> weights_ok sg wt -> sg <> [] ->
+  (forall l, (1 <= l <= 5)%Z -> level_peaks scale_u scale_w sg wt l <> [] ->
+     (2 <= length (level_peaks scale_u scale_w sg wt l))%nat /\
+     level_no_pass scale_u scale_w pvals sg wt q l /\ absorb l = false) ->
+  let n := Zlength_nat sg in
+  let r := haar_seg scale_u scale_w pvals absorb sg wt q in
+  hr_breaks r = [] /\ hr_start r = [0%Z] /\ hr_end r = [(n - 1)%Z] /\ hr_size r = [n] /\
+  exists m, hr_mean r = [m] /\ Qabs (m - c) <= eps.
+Proof.
+  intros Hf Hw Hne H n r. unfold r, haar_seg.
+  rewrite (fallback_no_breaks scale_u scale_w pvals absorb sg wt q H).
+  apply noisy_flat_result; assumption.
+Qed.
+
+Hypothesis scale_u_pos : forall h, 0 < scale_u h.
+
+(* haarSeg on a noisy step when FDRThres takes its fallback at every level with two or more peaks (the code's
+   regime for every step of height <= 1): exactly [t] iff at some level the 1e-16 is absorbed (|conv t| >= 1 in
+   binary64) or t is the only peak; otherwise nothing -- whatever the noise within eps < D / 4 *)
+Lemma noisy_step_seg_fallback a b t n sg eps q :
+  noise_within eps (step_signal a b t n) sg -> (32 <= t)%nat -> (t + 32 <= n)%nat ->
+  4 * eps < Qabs (b - a) ->
+  (forall l, (1 <= l <= 5)%Z -> (2 <= length (level_peaks scale_u scale_w sg None l))%nat ->
+     level_no_pass scale_u scale_w pvals sg None q l) ->
+  let r := haar_seg scale_u scale_w pvals absorb sg None q in
+  let T := Z.of_nat t in
+  let N := Z.of_nat n in
+  ((exists l, (1 <= l <= 5)%Z /\
+      ((length (level_peaks scale_u scale_w sg None l) < 2)%nat \/ absorb l = true)) ->
+   hr_breaks r = [T] /\ hr_start r = [0; T]%Z /\ hr_end r = [T - 1; N - 1]%Z /\ hr_size r = [T; N - T]%Z /\
+   exists m1 m2, hr_mean r = [m1; m2] /\ Qabs (m1 - a) <= eps /\ Qabs (m2 - b) <= eps) /\
+  ((forall l, (1 <= l <= 5)%Z ->
+      (2 <= length (level_peaks scale_u scale_w sg None l))%nat /\ absorb l = false) ->
+   hr_breaks r = []).
+Proof.
+  intros Hnz Ht Hn Hgap Hnp r T N.
+  assert (A : forall l, (1 <= l <= 5)%Z ->
+            level_addon scale_u scale_w pvals absorb sg None q l =
+            (if (length (level_peaks scale_u scale_w sg None l) <? 2)%nat || absorb l then [T] else [])).
+  { intros l Hl. apply (noisy_step_addon_fallback scale_u scale_w pvals absorb scale_u_pos a b t n sg eps q l);
+      try assumption. apply Hnp, Hl. }
+  destruct (fold_single_or_none T (fun l => level_addon scale_u scale_w pvals absorb sg None q l)
+              (fun l => (2 ^ (l - 1))%Z) ltac:(unfold T; lia) haar_levels []) as [F1 F2].
+  { intros l Hl. apply haar_levels_range in Hl. split; [apply Z.pow_nonneg; lia|].
+    rewrite (A l Hl). destruct ((length (level_peaks scale_u scale_w sg None l) <? 2)%nat || absorb l);
+      [left|right]; reflexivity. }
+  { right. reflexivity. }
+  split.
+  - intros [l0 [Hl0 Hc]].
+    assert (Hb : haar_breakpoints_over scale_u scale_w pvals absorb haar_levels sg None q = [T]).
+    { unfold haar_breakpoints_over. apply F1. right. exists l0. split.
+      - rewrite haar_levels_eq. cbn [In]. lia.
+      - rewrite (A l0 Hl0).
+        assert (E : (length (level_peaks scale_u scale_w sg None l0) <? 2)%nat || absorb l0 = true).
+        { destruct Hc as [C|C]; [apply Nat.ltb_lt in C; rewrite C; reflexivity|rewrite C; apply orb_true_r]. }
+        rewrite E. reflexivity. }
+    unfold r, haar_seg. rewrite Hb. apply (noisy_step_result a b t n sg eps Hnz); lia.
+  - intros Hall. unfold r, haar_seg.
+    assert (Hb : haar_breakpoints_over scale_u scale_w pvals absorb haar_levels sg None q = []).
+    { unfold haar_breakpoints_over. apply F2; [reflexivity|]. intros l Hl. apply haar_levels_range in Hl.
+      rewrite (A l Hl). destruct (Hall l Hl) as [H1 H2].
+      assert (E : (length (level_peaks scale_u scale_w sg None l) <? 2)%nat = false) by (apply Nat.ltb_ge; exact H1).
+      rewrite E, H2. reflexivity. }
+    rewrite Hb. reflexivity.
+Qed.
+
+End NoiseFallbackSeg.
